@@ -272,6 +272,37 @@ def timer_rules(ctx):
             else:
                 ctx.violated("R-LIVE-CHECK", j, inst, "list.remove raises ValueError when the callback (or another thread) has already removed the "
                              "registration: the exception ends the job thread", s)
+    # R-SLEEP-FRESH: the sleep time is computed against a clock reading taken after the callbacks of this pass
+    waits = [n for n in ast.walk(j.node) if isinstance(n, ast.Call) and isinstance(n.func, ast.Attribute) and n.func.attr == "get"
+             and _self_attr(n.func.value) and n.func.value.attr == "_job_thread_wakeup_queue"]
+    for w in waits:
+        targ = None
+        for k in w.keywords:
+            if k.arg == "timeout":
+                targ = k.value
+        if targ is None and len(w.args) >= 2:
+            targ = w.args[1]
+        inst = "sleep time = earliest deadline - a clock reading taken after this pass's callbacks"
+        if targ is None:
+            ctx.violated("R-SLEEP-FRESH", j, "the wait of the job thread is bounded", "the job thread waits without a timeout: no timer ever fires while it is idle", w)
+            continue
+        exprs, names, depth = [targ], set(), 0
+        while depth < 4:
+            depth += 1
+            new = [x.id for e in exprs for x in ast.walk(e) if isinstance(x, ast.Name) and x.id not in names]
+            if not new:
+                break
+            names |= set(new)
+            exprs += [n.value for n in ast.walk(j.node) if isinstance(n, ast.Assign) and any(isinstance(t, ast.Name) and t.id in new for t in n.targets)]
+        loop_end = max([getattr(lp, "end_lineno", lp.lineno) for lp in loops] or [0])
+        fresh = [c for e in exprs for c in ast.walk(e) if isinstance(c, ast.Call) and ast.unparse(c.func) == "time.time" and c.lineno > loop_end]
+        if fresh:
+            ctx.holds("R-SLEEP-FRESH", inst)
+        else:
+            ctx.violated("R-SLEEP-FRESH", j, inst, "the sleep time is computed from a clock value read before the timer callbacks ran: the time a callback "
+                         "takes is slept again, delaying every other pending timer by that much", w)
+    if not waits:
+        ctx.unknown("R-SLEEP-FRESH", "wait on the wake-up queue not found")
     # notify_subscribers over a snapshot re-checks liveness
     ns = P.func(ECU, "_notify_subscribers")
     for lp in [n for n in ast.walk(ns.node) if isinstance(n, ast.For) and any(_self_attr(x) and x.attr == "_subscribers" for x in ast.walk(n.iter))]:
